@@ -193,7 +193,10 @@ func allEncodings(yield func(Enc)) {
 		for _, sh := range []int{0, 'A', ':', '!', 0x424} {
 			for _, base := range []int{0, 'q', 'a'} {
 				for _, m := range []int{-1, 0, 1, 2, 4, 5, 64, 65, 128, 255} {
-					for _, txt := range [][]int{nil, {'a'}, {'A'}, {0xe9, 0x301}, {0x1f600}} {
+					// associated text of every character class: letters, a
+					// combining mark, an emoji, a ZWJ sequence, a ZWNJ word,
+					// spaces other than U+0020 (NBSP, ideographic), private use
+					for _, txt := range [][]int{nil, {'a'}, {'A'}, {0xe9, 0x301}, {0x1f600}, {0x1f468, 0x200d, 0x1f469}, {'a', 0x200c, 'b'}, {0xa0}, {0x3000}, {0xf8ff}} {
 						yield(Enc{K: "kitty", Ky: &keyspec.Kitty{Code: code, Shifted: sh, Base: base, Mods: m, Text: txt}})
 					}
 				}
@@ -452,6 +455,9 @@ func genEnc(rt *rapid.T) Enc {
 				k.Text = []int{k.Shifted}
 			} else if k.Code >= 0x20 && k.Code < 0x7f {
 				k.Text = []int{k.Code}
+			}
+			if rapid.IntRange(0, 3).Draw(rt, "text-class") == 1 {
+				k.Text = rapid.SampledFrom([][]int{{0x1f468, 0x200d, 0x1f469}, {'a', 0x200c, 'b'}, {0xa0}, {0x3000}, {0xf8ff}, {0xe9, 0x301}}).Draw(rt, "textv")
 			}
 		}
 		if rapid.IntRange(0, 4).Draw(rt, "ev") == 0 {
